@@ -152,7 +152,8 @@ impl VisitMut for OperationTransformVisitor<'_> {
                 );
                 if transform_result.is_modified() {
                     expr.map_with_mut(|e| transform_result.expr.unwrap_or(e));
-                    opv_with_child_ctx.update_status(transform_result.status, transform_result.tag);
+                    // do not update status yet: lowering the chain installs no hook, the call
+                    // inside it is instrumented (and counted) by the visit below
                 }
 
                 expr.visit_mut_children_with(opv_with_child_ctx);
